@@ -139,15 +139,22 @@ pub fn payload(rng: &mut Rng, max_w: usize, max_rows: usize, allow_bad: bool) ->
         8 => "scale_only",
         _ => "zero",
     };
-    match raster {
-        "equal" => text.push_str(&format!("\"1;1;{};{}", data_w.max(1), data_h)),
-        "larger" => text.push_str(&format!("\"1;1;{};{}", data_w + 1 + rng.usize(40), data_h + 1 + rng.usize(20))),
-        "smaller" => text.push_str(&format!("\"1;1;{};{}", (data_w / 2).max(1), (data_h / 2).max(1))),
-        "height_only" => text.push_str(&format!("\"1;1;{}", 1 + rng.usize(data_h + 6))),
-        "scale_only" => text.push_str(&format!("\"{};{}", 1 + rng.below(3), 1 + rng.below(3))),
-        "zero" => text.push_str(if rng.chance(1, 2) { "\"1;1;0;0" } else { "\"1;1;5;0" }),
-        _ => {}
+    let rs: String = match raster {
+        "equal" => format!("\"1;1;{};{}", data_w.max(1), data_h),
+        "larger" => format!("\"1;1;{};{}", data_w + 1 + rng.usize(40), data_h + 1 + rng.usize(20)),
+        "smaller" => format!("\"1;1;{};{}", (data_w / 2).max(1), (data_h / 2).max(1)),
+        "height_only" => format!("\"1;1;{}", 1 + rng.usize(data_h + 6)),
+        "scale_only" => format!("\"{};{}", 1 + rng.below(3), 1 + rng.below(3)),
+        "zero" => (if rng.chance(1, 2) { "\"1;1;0;0" } else { "\"1;1;5;0" }).to_string(),
+        _ => String::new(),
+    };
+    // where the raster attribute stands: normally in front of the data, but nothing stops a sender from
+    // putting it between two rows, after the last row, or both in front and at the end
+    let place = if rs.is_empty() || rng.chance(3, 4) { 0 } else { 1 + rng.below(3) };
+    if place == 0 || place == 3 {
+        text.push_str(&rs);
     }
+    let mid_row = if place == 2 { rng.usize(rows) } else { usize::MAX };
     if rng.chance(2, 3) {
         color_item(rng, &mut text, false);
     }
@@ -156,6 +163,9 @@ pub fn payload(rng: &mut Rng, max_w: usize, max_rows: usize, allow_bad: bool) ->
         if i > 0 {
             text.push('-');
         }
+        if i == mid_row {
+            text.push_str(&rs);
+        }
         if rng.chance(1, 4) {
             color_item(rng, &mut text, false);
         }
@@ -163,6 +173,9 @@ pub fn payload(rng: &mut Rng, max_w: usize, max_rows: usize, allow_bad: bool) ->
         if rng.chance(1, 10) {
             text.push('$');
         }
+    }
+    if place == 1 || place == 3 {
+        text.push_str(&rs);
     }
     if allow_bad && rng.chance(1, 8) {
         bad = true;
@@ -313,9 +326,24 @@ pub fn gen_c14(rng: &mut Rng, run: u64, thorough: bool) -> Trace {
     let order: String = ordering.iter().filter(|x| x.0).map(|x| x.1.to_string()).collect::<Vec<_>>().join(",");
     t.labels.push(format!("overlap_order={pos_label}|{order}"));
 
+    // beyond the canonical sweep: some sessions belong to a viewer (not a terminal buffer), and some streams
+    // carry an erase display between the images, with decodes from before it still in flight
+    let mut erase_at: Vec<usize> = Vec::new();
+    if run >= canonical_total() {
+        t.cfg.viewer = rng.chance(1, 3);
+        if rng.chance(1, 3) {
+            for _ in 0..1 + rng.usize(2) {
+                erase_at.push(rng.usize(ordering.len() + 1));
+            }
+            t.labels.push("erase=yes".into());
+        }
+    }
     for (gap, step) in ordering.iter().enumerate() {
         for _ in 0..polls[gap] {
             t.events.push(Ev::Poll);
+        }
+        if erase_at.contains(&gap) {
+            t.rx(b"\x1b[2J");
         }
         if step.0 {
             t.events.push(Ev::Release { ticket: step.1 });
@@ -328,6 +356,9 @@ pub fn gen_c14(rng: &mut Rng, run: u64, thorough: bool) -> Trace {
     }
     for _ in 0..polls[ordering.len()] {
         t.events.push(Ev::Poll);
+    }
+    if erase_at.contains(&ordering.len()) {
+        t.rx(b"\x1b[2J");
     }
     // bounded liveness: everything is released, k+1 further polls must deliver all
     for _ in 0..=k {
